@@ -88,7 +88,10 @@ def run(ctx):
     ctypes = [None, "application/json", "application/x-www-form-urlencoded",
               "multipart/form-data; boundary=\x01", "multipart/form-data",
               "multipart/form-data; boundary=xx", "text/plain; charset=",
-              "application/json; charset=nope", ";;;=", "\xff"]
+              "application/json; charset=nope", ";;;=", "\xff",
+              # quoted strings that never end, made of escapes
+              'multipart/form-data; boundary="' + "\\" * 40,
+              'text/plain; a="' + "\\" * 63 + ";", 'a; b="\\"; c="\\\\' * 20]
     hdrs = [{}, {"Cookie": "a=\x00;;;=;\""}, {"Authorization": "Digest \""},
             {"Range": "bytes=--,,"}, {"Host": "<x>:99999999999:1"},
             {"Host": "example.org:"}, {"Host": "example.org:http"},
@@ -105,6 +108,9 @@ def run(ctx):
                                     "404", 299)] + \
         [("fileobj", k) for k in ("stringio", "bytesio", "textfile",
                                   "binfile")] + \
+        [("ctype", v) for v in ("text/plain\r\nX-Injected: yes",
+                                "text/csv\nheader=1", "a/b\x00", "\t",
+                                "text/plain; x=\x7f")] + \
         [("addheader", v) for v in ("image.png", "caf\u00e9.txt",
                                     "\u017elu\u0165ou\u010dk\u00fd.txt",
                                     "\u4e2d\u6587.pdf", 'q"uo\\te', "")]
@@ -116,6 +122,11 @@ def run(ctx):
             res = rng.choice([Response("x"), JSONResponse(a=1)])
             res.status_code = prog[1]
             return res
+        if prog[0] == "ctype":
+            # a content type is text the handler supplies, like any header
+            from poorwsgi.response import Response
+            return rng.choice([("ok", prog[1]),
+                               Response("ok", content_type=prog[1])])
         if prog[0] == "addheader":
             # header parameters given as keyword arguments
             from poorwsgi.response import Response
